@@ -207,6 +207,14 @@ impl Check for C06 {
                 }
             }
         }
+        // documents around one string (value or member name) of hundreds of KiB to a few MiB
+        if g.scale >= 0.5 {
+            for i in 0..(if g.tier == Tier::Quick { 16u64 } else { 64 }) {
+                if g.mine(9000 + i) {
+                    emit(Case::with("huge-string", vec![], &[i as i64]));
+                }
+            }
+        }
         let mut idx = 0;
         for f in 0..crate::mon::c03::CORPUS.len() {
             if g.mine(idx) && (g.scale >= 0.5 || f < 2) {
@@ -216,6 +224,29 @@ impl Check for C06 {
         }
     }
     fn exec(&self, ctx: &mut Ctx, c: &Case) {
+        if c.entry == "huge-string" {
+            let i = c.p(0) as usize;
+            const LENS: [usize; 8] = [262_144, 262_175, 300_001, (1 << 20) + 5, 2_097_150, (4 << 20) + 33, 5_242_883, 4_194_303];
+            let filler: &[&str] = [&["QUJD", "0123"][..], &["中", "文", "字"][..], &["é", "ü"][..], &["a", "é", "中", "😀", "\\n", "\\u00e9", "bcdefgh"][..]][(i / 2) % 4];
+            let len = LENS[i % 8] + i / 8;
+            let mut body = String::with_capacity(len + 16);
+            let mut k = 0usize;
+            while body.len() < len {
+                body.push_str(filler[k % filler.len()]);
+                k += 1;
+            }
+            if i % 3 == 0 {
+                body.push_str("\\n");
+            }
+            let d = if i % 4 == 3 { format!("{{\"{}\":[1,2],\"z\":\"x\"}}", body) } else { format!("[0.5,{{\"k\":\"{}\",\"n\":-7}},\"end\"]", body) };
+            ctx.class("doc:huge-string");
+            check_doc(ctx, d.as_bytes());
+            ctx.sample("huge-string");
+            if let Some(last) = ctx.samples.last_mut() {
+                last["value"] = serde_json::json!(format!("{} bytes around one string of {:?}…", d.len(), filler));
+            }
+            return;
+        }
         if c.entry == "corpus" {
             if let Some(f) = crate::mon::c03::corpus(c.p(0) as usize) {
                 ctx.class("doc:corpus");
@@ -227,6 +258,9 @@ impl Check for C06 {
         ctx.sample(&c.entry);
     }
     fn required_classes(&self, _b: &str, _t: Tier) -> Vec<&'static str> {
+        if _b == "native-rel" {
+            return vec!["doc:valid", "doc:duplicate-keys", "mode:rawnumber", "doc:corpus", "doc:huge-string"];
+        }
         vec!["doc:valid", "doc:duplicate-keys", "mode:rawnumber", "doc:corpus"]
     }
 }
